@@ -26,7 +26,14 @@ type jobSpec struct {
 	// abort reasons (regexp) that are part of the harness's stated model, e.g. "would block"
 	TolerateAbort []string `json:"tolerate_abort,omitempty"`
 	NoNative      bool     `json:"no_native_replay,omitempty"` // harness uses stubs of code outside the repo
+	NativeDemo    []demoSpec `json:"native_demo,omitempty"`   // end-to-end demonstrations on the real stack, by assertion tag
 	TimeoutMs     int      `json:"timeout_ms,omitempty"`
+}
+
+type demoSpec struct {
+	Tag  string `json:"tag"`  // regexp on the assertion tag
+	File string `json:"file"` // test file relative to /verif, overlaid into the package directory
+	Test string `json:"test"` // test function
 }
 
 type checkSpec struct {
@@ -238,6 +245,25 @@ func cmdCheck(args []string) int {
 				if job.NoNative {
 					ok, msg := engineReplay(cf)
 					reproduced, how = ok, "engine-concrete: "+msg
+					if ok {
+						for _, d := range job.NativeDemo {
+							if m, _ := regexp.MatchString("^(?:"+d.Tag+")$", v.Tag); !m {
+								continue
+							}
+							rr := nativeDemo(job.Pkg, d, cf)
+							switch {
+							case rr.violated[v.Tag]:
+								how += "; native end-to-end demo on the real stack reproduces it"
+								fmt.Printf("  native demo %s: reproduced on the real stack\n", d.Test)
+							case rr.err != "":
+								how += "; native demo not applicable: " + rr.err
+							default:
+								reproduced = false
+								how += "; native end-to-end demo does NOT show the failure"
+							}
+							break
+						}
+					}
 				} else {
 					rr := nativeReplay(cf)
 					if rr.err != "" {
@@ -730,6 +756,49 @@ func nativeReplay(cf cexFile) replayResult {
 			rr.panicked = true
 		case strings.HasPrefix(l, "REPLAY-DIVERGED"):
 			rr.diverged = true
+		case strings.HasPrefix(l, "REPLAY-UNSUPPORTED"):
+			rr.err = l
+		}
+	}
+	return rr
+}
+
+// nativeDemo runs a hand-written end-to-end test against the real package with the model.
+func nativeDemo(pkg string, d demoSpec, cf cexFile) replayResult {
+	rr := replayResult{violated: map[string]bool{}, reached: map[string]bool{}}
+	repo := repoDir()
+	tmp, err := os.MkdirTemp("", "gosmt-demo-")
+	if err != nil {
+		rr.err = err.Error()
+		return rr
+	}
+	defer os.RemoveAll(tmp)
+	for _, f := range []string{"go.mod", "go.sum"} {
+		b, _ := os.ReadFile(filepath.Join(repo, f))
+		os.WriteFile(filepath.Join(tmp, map[string]string{"go.mod": "x.mod", "go.sum": "x.sum"}[f]), b, 0o644)
+	}
+	repl := map[string]string{filepath.Join(repo, pkg, "zz_verif_demo_test.go"): filepath.Join(verifRoot, d.File)}
+	ov, _ := json.Marshal(map[string]interface{}{"Replace": repl})
+	ovf := filepath.Join(tmp, "overlay.json")
+	os.WriteFile(ovf, ov, 0o644)
+	mf := filepath.Join(tmp, "model.json")
+	mb, _ := json.Marshal(cf.Model)
+	os.WriteFile(mf, mb, 0o644)
+	cmd := exec.Command("go", "test", "-tags=verif", "-overlay="+ovf, "-modfile="+filepath.Join(tmp, "x.mod"),
+		"-run", "^"+d.Test+"$", "-count=1", "-v", "-vet=off", "-timeout", "120s", pkg)
+	cmd.Dir = repo
+	cmd.Env = append(os.Environ(), "GOFLAGS=-mod=mod", "GOPROXY=off", "GOSUMDB=off", "GOTOOLCHAIN=local", "GOSMT_MODEL="+mf)
+	out, _ := cmd.CombinedOutput()
+	rr.output = string(out)
+	if !strings.Contains(rr.output, "REPLAY-") {
+		rr.err = "no demo output: " + lastLines(rr.output, 8)
+		return rr
+	}
+	for _, l := range strings.Split(rr.output, "\n") {
+		l = strings.TrimSpace(l)
+		switch {
+		case strings.HasPrefix(l, "REPLAY-VIOLATION tag="):
+			rr.violated[strings.TrimPrefix(l, "REPLAY-VIOLATION tag=")] = true
 		case strings.HasPrefix(l, "REPLAY-UNSUPPORTED"):
 			rr.err = l
 		}
